@@ -108,6 +108,8 @@ def run_mixture(case, R):
         with instr.options(**s.copts), instr.capture() as ev:
             model = scen.fit(s)
     except Exception as e:
+        if not instr.is_library_exception(e):
+            raise
         R.count(f'fit raised {type(e).__name__}')
         R.ok('C09.raised')
         return
@@ -166,6 +168,8 @@ def run_dist(case, R):
             opts = dict(max_concentration=500)
             m = ComplexBinghamTrainer(max_concentration=500).fit(y, saliency=sal)
     except Exception as e:
+        if not instr.is_library_exception(e):
+            raise
         R.count(f'{fam} trainer raised {type(e).__name__}')
         R.ok('C09.raised')
         return
